@@ -16,7 +16,7 @@ RULE = (
     "case = (seeded public function found by introspection of the package namespace - 'seed' in its signature -, "
     "argument tuple from a bounded grid that draws every documented parameter incl. the boundary values 0 / 1 / None / default, seed, schedule of 0-8 perturbations executed between the two calls: draws from "
     "random / numpy.random, re-seeding either global generator, calling the same function with another seed, calling "
-    "another seeded function). Oracle: both calls return identical observable output - full ordered network snapshot "
+    "another seeded function, calling the same function with other arguments / an extra networkx option); the seed is passed as a Python int or, where the function accepts it, as a numpy integer. Oracle: both calls return identical observable output - full ordered network snapshot "
     "incl. IDs for generators, exact position arrays for layouts, identical cluster dict for spectral_clustering. "
     "non-trivial = the output is not empty/constant (>= 1 edge, >= 2 positions, >= 2 clusters) and the schedule has >= 2 "
     "perturbations; a seeded function without an argument recipe is listed as uncovered"
@@ -168,9 +168,13 @@ def cases(draw, tier):
         st.tuples(st.just("np_seed"), st.integers(0, 99)).map(list),
         st.tuples(st.just("same_fn_other_seed"), st.integers(0, 10**6)).map(list),
         st.tuples(st.just("other_fn"), st.sampled_from(others), st.integers(0, 10**6)).map(list),
+        # the same function with other arguments (generators: a fixed other parameter tuple; spring layouts: an extra networkx option)
+        st.tuples(st.just("same_fn_other_args"), st.integers(0, 10**6)).map(list),
     )
     return {"fn": name, "params": params, "seed": draw(st.integers(0, 10**6)), "schedule": draw(st.lists(pert, max_size=8)),
-            "pre": draw(st.lists(st.integers(0, 99), max_size=2))}
+            "pre": draw(st.lists(st.integers(0, 99), max_size=2)),
+            # the seed as a Python int or as a numpy integer (judged only where the function accepts that type at all)
+            "seedtype": draw(st.sampled_from(["int", "int", "int", "np.int64", "np.uint32"]))}
 
 
 def strategy(tier):
@@ -235,9 +239,18 @@ def run_case(case, ctx):
         return
     args, kw = ca
     seed = case["seed"]
+    stype = case.get("seedtype", "int")
+    if stype != "int":
+        seed = np.int64(seed) if stype == "np.int64" else np.uint32(seed)
+        try:
+            f(*copy.deepcopy(args), seed=seed, **copy.deepcopy(kw))
+        except (TypeError, ValueError):  # random.seed() and networkx refuse numpy integers: this seed type is not offered by the function
+            ctx.event("seedtype-refused:" + name)
+            return
+        ctx.event("seedtype:" + stype)
     # the global generators start from a state that is a function of the case (replayable)
-    random.seed(case.get("init", seed) + 17)
-    np.random.seed((case.get("init", seed) + 17) % (2**32))
+    random.seed(case.get("init", int(seed)) + 17)
+    np.random.seed((case.get("init", int(seed)) + 17) % (2**32))
     for s in case["pre"]:  # earlier calls to the same function must not matter either
         f(*copy.deepcopy(args), seed=s, **copy.deepcopy(kw))
     o1 = f(*copy.deepcopy(args), seed=seed, **copy.deepcopy(kw))
@@ -254,6 +267,14 @@ def run_case(case, ctx):
             np.random.seed(op[1])
         elif op[0] == "same_fn_other_seed":
             f(*copy.deepcopy(args), seed=op[1], **copy.deepcopy(kw))
+        elif op[0] == "same_fn_other_args":
+            if name in OTHER_DEFAULTS:
+                a2, k2 = call_args(name, OTHER_DEFAULTS[name])
+                f(*a2, seed=op[1], **k2)
+            elif name.endswith("spring_layout"):
+                f(*copy.deepcopy(args), seed=op[1], **dict(copy.deepcopy(kw), iterations=2 + op[1] % 3))
+            else:
+                f(*copy.deepcopy(args), seed=op[1], **copy.deepcopy(kw))
         elif op[0] == "other_fn" and op[1] in SEEDED and op[1] in OTHER_DEFAULTS:
             a2, k2 = call_args(op[1], OTHER_DEFAULTS[op[1]])
             SEEDED[op[1]](*a2, seed=op[2], **k2)
